@@ -248,4 +248,47 @@ theorem nodup_of_nodup_map {α β : Type} (f : α → β) (l : List α) (hnd : (
     have hc := List.nodup_cons.mp (show (f c :: t.map f).Nodup from hnd)
     exact List.nodup_cons.mpr ⟨fun h => hc.1 (List.mem_map_of_mem (f := f) h), ih hc.2⟩
 
+def GetResult.destroyed : GetResult → List Nat
+  | .got _ _ d => d
+  | .wait d => d
+
+/-- the resources one `Get` destroys are exactly the leading expired idle nodes it walked over. -/
+theorem getLoop_destroyed (limit maxAge now next : Nat) (l : List PNode) (c : Int) (d : List Nat) :
+    ∃ pre, pre <+: l ∧ (∀ nd ∈ pre, expired maxAge now nd = true) ∧
+      (match (getLoop limit maxAge now next l c d).2 with
+       | .got _ _ dd => dd = d ++ pre.map (·.item)
+       | .wait dd => dd = d ++ pre.map (·.item)) ∧
+      (match (getLoop limit maxAge now next l c d).2 with
+       | .got item false _ => ∃ nd, nd ∈ l ∧ nd.item = item ∧ expired maxAge now nd = false
+       | _ => True) := by
+  induction l generalizing c d with
+  | nil =>
+    refine ⟨[], List.prefix_refl _, by simp, ?_, ?_⟩ <;> simp only [getLoop] <;>
+      by_cases hc : c < (limit : Int) <;> simp [hc]
+  | cons nd rest ih =>
+    simp only [getLoop]
+    by_cases hexp : expired maxAge now nd = true
+    · simp only [hexp, if_true]
+      obtain ⟨pre, hp, he, hd, hg⟩ := ih (c - 1) (d ++ [nd.item])
+      refine ⟨nd :: pre, ?_, ?_, ?_, ?_⟩
+      · exact List.cons_prefix_cons.mpr ⟨rfl, hp⟩
+      · intro x hx
+        rcases List.mem_cons.mp hx with rfl | hx
+        · exact hexp
+        · exact he x hx
+      · revert hd
+        generalize (getLoop limit maxAge now next rest (c - 1) (d ++ [nd.item])).2 = res
+        cases res <;> simp
+      · revert hg
+        generalize (getLoop limit maxAge now next rest (c - 1) (d ++ [nd.item])).2 = res
+        cases res with
+        | wait dd => simp
+        | got item fresh dd =>
+          cases fresh <;> simp
+          rintro x hx h1 h2
+          exact Or.inr ⟨x, hx, h1, h2⟩
+    · simp only [hexp]
+      refine ⟨[], List.nil_prefix, by simp, by simp, ?_⟩
+      exact ⟨nd, by simp, rfl, by simpa using hexp⟩
+
 end GoZero.C05
